@@ -187,6 +187,24 @@ def pristine():
         _PRISTINE.update(pid=os.getpid(), clean=True)
 
 
+def task_cost(task):
+    """Rough relative duration, to start the long tasks first."""
+    kind = task[0]
+    if kind == 'hist':
+        name = EVENTS[task[1]][0]
+        return 30 if name.startswith('decode 130 times') else 4
+    if kind in ('sched', 'cold'):
+        name = HARNESSES[task[1]][0]
+        if 'never-seen' in name or 'nesting depth' in name:
+            return 16
+        return 3 if kind == 'sched' else 2
+    if kind == 'hist3':
+        return 8
+    if kind == 'soak':
+        return 6
+    return 1
+
+
 def run_history(ctx, hist, check_state=None):
     """Run one history in a forked child of the pristine process and fold
     what it observed into ctx.  Returns (state hash, legacy, ok)."""
